@@ -8,7 +8,8 @@ ObsKeys(r) == {r.classes[i] : i \in DOMAIN r.classes}
 ClassOf(key) == key   \* keys are "class/arg"
 Symptom(r) ==
   LET e == FaultKeys(r.in)  o == ObsKeys(r) IN
-  IF r.verdict = "panic" THEN "-"                       \* a panic is C16's violation (the C16 check replays this very stream); nothing to compare here
+  IF r.verdict = "panic" THEN (IF FaultKeys(r.in) = {} THEN "-"     \* no rule broken and a panic: C16's violation (it replays this very stream)
+                              ELSE "faulty_input_panics_instead_of_diagnostic")
   ELSE IF e = {} THEN (IF r.verdict = "ok" THEN "-" ELSE "valid_input_rejected")
   ELSE IF r.verdict # "err" THEN "faulty_input_accepted"
   ELSE IF \E k \in e : k \notin o THEN "diagnostic_missing"
